@@ -39,6 +39,7 @@ class Block:
         self.nocanary = False
         self.wrap = None       # R7: fn signature text wrapping a region
         self.subst = []        # R7: (pattern, replacement) token substitutions listed in the template
+        self.tail = None       # R7: tail expression appended after the region (returns locals the region assigns)
         self.name = None
         self.loopfree_fallback = False
 
@@ -89,6 +90,10 @@ def parse_template(text):
                 elif d[0] == "wrap":
                     section = []
                     cur.wrap = section
+                elif d[0] == "tail":
+                    # //@ tail <expr> : the wrapped fn returns this expression (a local / tuple of locals that the
+                    # region assigns and the surrounding code reads afterwards); counted as R7.tail_expr_appended
+                    cur.tail = s[3:].strip()[len("tail"):].strip()
                 elif d[0] == "subst":
                     # //@ subst <from> => <to>
                     rest = s[3:].strip()[len("subst"):].strip()
@@ -330,6 +335,9 @@ def assemble(repo, template_text, canary_set=None):
                 sig = "\n".join(b.wrap)
                 # weave on a synthetic fn made of the wrap signature + the verbatim region, so that loop
                 # contracts and structural inserts work exactly as for whole fns
+                if b.tail:
+                    region = region + "\n" + b.tail
+                    rsx._count(rw, "R7.tail_expr_appended[%s]" % b.tail)
                 syn = rsx.Source("<region of %s>" % src.path, text=sig + "\n{\n" + region + "\n}\n")
                 its = [it for it in rsx.parse_items(syn.toks, 0, len(syn.toks)) if it.kind == "fn"]
                 if len(its) != 1:
